@@ -1,2 +1,54 @@
-import FpgoVerif.Model.C15
-/-! Property theorems for C15 (none yet). -/
+import FpgoVerif.Proofs.C15Mailbox
+import FpgoVerif.Gen.Skeletons
+/-! Property theorems for C15 — "Shutdown is safe at any moment".  One transition system per component
+    (Model/C15*.lean); every theorem quantifies over all reachable states = all interleavings of any number
+    of goroutines with the one closing goroutine. -/
+namespace FpgoVerif.C15
+
+/-! ## Handler / Actor -/
+
+/-- no goroutine panics: no send on the closed channel escapes the recover scope, the channel is closed once -/
+theorem C15_mailbox_safe {cap s} (h : Mb.Reach cap true s) : s.panic = false :=
+  (Mb.inv_reach h).nopanic (Mb.recovers_const h)
+
+/-- the code before fa052a2 (no recover around the send): Close between check and send panics the sender -/
+theorem C15_mailbox_unfixed_panics : ∃ s, Mb.Reach 0 false s ∧ s.panic = true := by
+  let acts : List (Option Bool × Mb.PC) :=
+    [(none, .p0 1), (some false, .p0 1), (none, .c0), (some false, .c0), (some false, .c1), (some false, .p1 1)]
+  have h : ((Mb.runActs (Mb.init 0 false) acts).map (·.panic)) = some true := by decide
+  cases hr : Mb.runActs (Mb.init 0 false) acts with
+  | none => simp [hr] at h
+  | some s => exact ⟨s, Mb.runActs_reach acts Mb.Reach.init hr, by simpa [hr] using h⟩
+
+/-- after Close has returned the flag is set, the channel is closed, and no closed-check has passed since -/
+theorem C15_mailbox_after {cap r s} (h : Mb.Reach cap r s) :
+    s.late = 0 ∧ (s.closeDone = true → s.flag = true ∧ s.chClosed = true) :=
+  ⟨(Mb.inv_reach h).late0, fun hd => ⟨(Mb.inv_reach h).doneFlag hd, (Mb.inv_reach h).doneClosed hd⟩⟩
+
+/-- a Post/Send whose first atom follows Close's last atom is dropped: it returns at the check, enqueues
+    nothing and runs no callback -/
+theorem C15_mailbox_after_dropped {cap r s m ch s' nx} (h : Mb.Reach cap r s) (hd : s.closeDone = true)
+    (hs : Mb.gstep s (.p0 m) ch = some (s', nx)) : nx = .fin .ok ∧ s'.buf = s.buf ∧ s'.ran = s.ran := by
+  have hf := (Mb.inv_reach h).doneFlag hd
+  obtain ⟨_, s1, hs1, rfl⟩ := Mb.gstep_some hs
+  simp [Mb.step, hf] at hs1
+  obtain ⟨rfl, rfl⟩ := hs1
+  simp
+
+/-- no deadlock: while any Post/Send, the Close or a callback is in progress some goroutine can step
+    (callbacks terminate = the gate is open) — in particular a sender blocked in the send is released by the
+    consumer or, after Close, by the recovered panic -/
+theorem C15_mailbox_nodeadlock {cap s} (h : Mb.Reach cap true s) (hg : s.gate = true)
+    (hb : 0 < s.cnt .p0 ∨ 0 < s.cnt .p1 ∨ 0 < s.cnt .c0 ∨ 0 < s.cnt .c1 ∨ 0 < s.cnt .r1) :
+    ∃ pc ch s' nx, Mb.gstep s pc ch = some (s', nx) :=
+  Mb.progress (Mb.inv_reach h) (Mb.recovers_const h) hg hb
+
+/-- non-vacuity: a state with a sender past the check while Close is half done is reachable -/
+example : ∃ s, Mb.Reach 1 true s ∧ 0 < s.cnt .p1 ∧ 0 < s.cnt .c1 := by
+  let acts : List (Option Bool × Mb.PC) := [(none, .p0 1), (some false, .p0 1), (none, .c0), (some false, .c0)]
+  have h : ((Mb.runActs (Mb.init 1 true) acts).map (fun s => decide (0 < s.cnt .p1 ∧ 0 < s.cnt .c1))) = some true := by decide
+  cases hr : Mb.runActs (Mb.init 1 true) acts with
+  | none => simp [hr] at h
+  | some s => exact ⟨s, Mb.runActs_reach acts Mb.Reach.init hr, by simpa [hr] using h⟩
+
+end FpgoVerif.C15
